@@ -1,4 +1,5 @@
 import OnetVerif.Model.C02
+import OnetVerif.Shapes
 /-! Property C02 — handlers only see messages from the authenticated tree member they name. -/
 namespace C02
 
@@ -168,5 +169,40 @@ example : run inst (fun _ => [])
 
 /-- one impersonating element poisons the whole aggregated batch: nothing is delivered -/
 example : run inst (fun _ => []) [⟨1, some 12, some 2, 7⟩, ⟨1, some 13, some 2, 8⟩] = [] := by decide
+
+/-! ### the code regions the model stands for
+Regenerated from /repo's source on every run (`harness/cmd/astfacts` → `OnetVerif/Shapes.lean`): the
+calls that matter for synchronisation and data flow, the lock regions and (for decision logic) the
+conditions, in source order.  A re-ordering, a dropped call or a changed condition breaks these
+obligations even when no sampled input or schedule shows a difference; the check then searches for
+a failing input. -/
+theorem c02_shape_TreeNodeInstance_createValueAndVerify :
+    Shapes.treenode_TreeNodeInstance_createValueAndVerify =
+   ["n.Tree", "if:(t!=nil)", "tr.Search", "if:(tn==nil)", "return:m,xerrors.New(\"\")",
+     "m.Field", "Field().Set", "m.Field", "Field().Set",
+     "if:(((msg.ServerIdentity!=nil)&&(tn!=nil))&&!tn.ServerIdentity.Equal(msg.ServerIdentity))",
+     "return:m,xerrors.Errorf(\"\",tn.ServerIdentity,msg.ServerIdentity)", "return:m,nil"] := rfl
+
+theorem c02_shape_TreeNodeInstance_dispatchHandler :
+    Shapes.treenode_TreeNodeInstance_dispatchHandler =
+   ["n.hasFlag", "to.Elem", "n.createValueAndVerify", "msgs.Index", "Index().Set", "f.Call",
+     "errV.IsValid", "errV.IsNil", "n.createValueAndVerify", "f.Call", "errV.IsNil"] := rfl
+
+theorem c02_shape_TreeNodeInstance_dispatchChannel :
+    Shapes.treenode_TreeNodeInstance_dispatchChannel =
+   ["defer{", "}", "n.hasFlag", "to.Elem", "to.Elem", "n.createValueAndVerify", "out.Index",
+     "Index().Set", "to.Elem", "n.createValueAndVerify", "out.Len", "out.Cap",
+     "msgDispatchQueueMutex.Lock", "msgDispatchQueueMutex.Unlock", "out.Send"] := rfl
+
+theorem c02_shape_TreeNodeInstance_dispatchMsgToProtocol :
+    Shapes.treenode_TreeNodeInstance_dispatchMsgToProtocol =
+   ["rx.add", "n.aggregate", "n.dispatchChannel", "n.dispatchHandler"] := rfl
+
+theorem c02_shape_Overlay_Process :
+    Shapes.overlay_Overlay_Process =
+   ["MsgType.Equal", "o.handleConfigMessage", "protoIO.getByPacketType", "io.Unwrap",
+     "o.handleRequestTree", "o.handleSendTree", "o.handleSendTreeMarshal",
+     "o.handleRequestRoster", "o.handleSendRoster", "network.MessageType", "o.TransmitMsg"] := rfl
+
 
 end C02
